@@ -40,6 +40,7 @@ RULE = (
     "get_lexer / LRUCache / Lexer.__init__ / overlay. Every render is compared with the isolated render of the same "
     "(configuration, source, data). Non-trivial = a configuration is used again after a different configuration was used (or "
     "concurrently with it); distinct = digest(history, configurations, switch trace)."
+    " One configuration in four loads the i18n extension with newstyle callables installed and the `_` shorthand replaced by the application's own function (source ends in a trans block and a _() call); overlays inherit them."
     ' One source in six ends with an include that needs a loader (every loader-less entry point must fail the same way).'
 )
 ASSUMPTIONS = [
@@ -98,6 +99,25 @@ def setup() -> None:
     _setup_done = True
 
 
+I18N_EXT = "jinja2.ext.i18n"
+
+
+def _tr(s_):
+    return s_.replace("text", "TEXT").replace("thing", "Ding")
+
+
+def _underscore(s_):
+    return "<" + _tr(s_) + ">"
+
+
+def _install(env, cfg: dict) -> None:
+    """Environments created from a configuration that loads the i18n extension get newstyle callables (what an
+    application does once after creating its environment); overlays inherit them."""
+    if I18N_EXT in (cfg.get("extensions") or ()):
+        env.install_gettext_callables(_tr, lambda s_, p_, n_: _tr(s_ if n_ == 1 else p_), newstyle=True)
+        env.globals["_"] = _underscore  # the application's own shorthand replaces the extension's alias
+
+
 def _set_lexer_capacity(k: int) -> None:
     import jinja2.lexer as L
 
@@ -137,16 +157,22 @@ def run(tape: Tape) -> Outcome:
     for _ in range(nconf):
         sx = SYNTAXES[tape.draw(len(SYNTAXES))]
         confs.append(_cfg_of(sx, bool(tape.draw(2))))
+        if tape.draw(4, "m") == 3:
+            # an extension that keeps per-environment state (i18n: newstyle flag, installed callables)
+            confs[-1]["extensions"] = [I18N_EXT]
     # one source per configuration, written in its syntax; whitespace-sensitive tail
     sources = []
     for ci, cfg in enumerate(confs):
-        sx = next(s for s in SYNTAXES if s.env_kwargs() == {k: v for k, v in cfg.items() if k != "autoescape"})
+        sx = next(s for s in SYNTAXES if s.env_kwargs() == {k: v for k, v in cfg.items() if k not in ("autoescape", "extensions")})
         g = Gen(tape, syntax=sx, size=1 + tape.draw(2), max_depth=2)
         body = g.body(__import__("sim.workload", fromlist=["Scope"]).Scope(), 1, 1 + tape.draw(2))
         tail = f"\n  {sx.bs} if n1 is defined {sx.be}  \n <{sx.vs} s1 {sx.ve}>\n  {sx.bs} endif {sx.be}\n{sx.cs} c {sx.ce}\nend\n"
         if tape.draw(8) == 7:
             # a tag only the loopcontrols extension knows: a syntax error everywhere except in overlays that add it
             tail += f"{sx.bs} for q in [1, 2, 3] {sx.be}{sx.bs} if q == 2 {sx.be}{sx.bs} break {sx.be}{sx.bs} endif {sx.be}{sx.vs} q {sx.ve}{sx.bs} endfor {sx.be}"
+        if "extensions" in cfg:
+            tail += (f"{sx.bs} trans v=s1 {sx.be}some text {sx.vs} v {sx.ve} & more{sx.bs} endtrans {sx.be}"
+                     f"{sx.vs} _('a thing') {sx.ve}")
         if tape.draw(6) == 5:
             # a template that needs a loader: every entry point without one must fail the same way
             tail += f"{sx.bs} include 'nope' ignore missing {sx.be}"
@@ -183,9 +209,12 @@ def run(tape: Tape) -> Outcome:
             if name is None:
                 # Template(...) has no loader; from_string runs on environments that have the shared one
                 env = jinja2.Environment(loader=jinja2.DictLoader({f"t{ci}": s_ for ci, s_ in enumerate(sources)}) if has_loader else None, **cfg)
+                if has_loader:
+                    _install(env, cfg)  # (the Template constructor's environment never gets callables installed)
                 refs[key] = _render(lambda: env.from_string(src).render(datas[di]))
             else:
                 env = jinja2.Environment(loader=jinja2.DictLoader({name: src}), **cfg)
+                _install(env, cfg)
                 refs[key] = _render(lambda: env.get_template(name).render(datas[di]))
         return refs[key]
 
@@ -206,12 +235,14 @@ def run(tape: Tape) -> Outcome:
                 if sci == ci and cfg == confs[ci]:
                     return e, cfg, sci
             e = jinja2.Environment(loader=loader, **confs[ci])
+            _install(e, confs[ci])
             envs.append((e, confs[ci], ci))
             return envs[-1]
 
         def do(i, op):
             if op[0] == "make_env":
                 e = jinja2.Environment(loader=loader, **confs[op[1]])
+                _install(e, confs[op[1]])
                 envs.append((e, confs[op[1]], op[1]))
             elif op[0] == "overlay":
                 e, cfg, sci = get_env(op[1])
@@ -225,6 +256,8 @@ def run(tape: Tape) -> Outcome:
                 o = e.overlay(**kw)
                 ncfg = dict(cfg)
                 ncfg.update(delta)
+                if "extensions" in delta and "extensions" in cfg:
+                    ncfg["extensions"] = list(cfg["extensions"]) + [x for x in delta["extensions"] if x not in cfg["extensions"]]
                 envs.append((o, ncfg, sci))
             elif op[0] == "Template":
                 cfg = confs[op[1]]
